@@ -13,6 +13,7 @@ import (
 	"context"
 	"database/sql"
 	"database/sql/driver"
+	"errors"
 	"fmt"
 	"io"
 	"strings"
@@ -42,6 +43,11 @@ func (e c11Event) String() string {
 type c11Result struct {
 	Cols []string
 	Rows [][]driver.Value
+	// row-iteration faults: driver.Rows.Next fails (non-EOF) when asked for row FailRow
+	// (FailRow == len(Rows): instead of the final io.EOF); Rows.Close fails with CloseErr.
+	Fail     bool
+	FailRow  int
+	CloseErr error
 }
 
 // c11Rec is one recorder (= one logical database).
@@ -52,6 +58,7 @@ type c11Rec struct {
 	faults  map[string]map[int]error // fault class (begin stmt commit rollback) -> 0-based call -> error
 	hit     int                      // faults actually injected
 	results []c11Result              // served to successive queries, then the default
+	iter    map[int]int              // statement ordinal (class "stmt") -> row whose fetch fails
 	conns   int
 }
 
@@ -98,11 +105,48 @@ func (r *c11Rec) fault(class string, call int, err error) {
 
 // step records an event of the given kind and returns the injected error, if any.
 func (r *c11Rec) step(kind, class string, conn int) error {
+	_, err := r.stepN(kind, class, conn)
+	return err
+}
+
+// iterFault arms a row-iteration fault for the statement with the given ordinal.
+func (r *c11Rec) iterFault(stmtOrdinal, row int) {
+	r.mu.Lock()
+	if r.iter == nil {
+		r.iter = map[int]int{}
+	}
+	r.iter[stmtOrdinal] = row
+	r.mu.Unlock()
+}
+
+// rowsFor returns the result for the query with statement ordinal n.
+func (r *c11Rec) rowsFor(n, conn int) *c11Rows {
+	res := r.nextResult()
+	r.mu.Lock()
+	if row, ok := r.iter[n]; ok {
+		res.Fail, res.FailRow = true, row
+	}
+	r.mu.Unlock()
+	return &c11Rows{res: res, rec: r, conn: conn}
+}
+
+// note records an event outside the call counters (row-iteration / close faults).
+func (r *c11Rec) note(kind string, conn int, err error) {
+	r.mu.Lock()
+	r.events = append(r.events, c11Event{Kind: kind, Conn: conn, Err: err.Error()})
+	r.hit++
+	r.mu.Unlock()
+}
+
+// stepN is step that also returns the 0-based ordinal of the call within its class.
+func (r *c11Rec) stepN(kind, class string, conn int) (int, error) {
 	r.mu.Lock()
 	defer r.mu.Unlock()
 	var err error
+	ord := -1
 	if class != "" {
 		n := r.calls[class]
+		ord = n
 		r.calls[class] = n + 1
 		if f, ok := r.faults[class][n]; ok {
 			err = f
@@ -114,7 +158,7 @@ func (r *c11Rec) step(kind, class string, conn int) error {
 		ev.Err = err.Error()
 	}
 	r.events = append(r.events, ev)
-	return err
+	return ord, err
 }
 
 func (r *c11Rec) snapshot() []c11Event {
@@ -208,10 +252,11 @@ func (c *c11Conn) ExecContext(_ context.Context, _ string, _ []driver.NamedValue
 }
 
 func (c *c11Conn) QueryContext(_ context.Context, _ string, _ []driver.NamedValue) (driver.Rows, error) {
-	if err := c.rec.step("query", "stmt", c.id); err != nil {
+	n, err := c.rec.stepN("query", "stmt", c.id)
+	if err != nil {
 		return nil, err
 	}
-	return &c11Rows{res: c.rec.nextResult()}, nil
+	return c.rec.rowsFor(n, c.id), nil
 }
 
 type c11Tx struct{ c *c11Conn }
@@ -230,20 +275,39 @@ func (s *c11Stmt) Exec(_ []driver.Value) (driver.Result, error) {
 	return driver.RowsAffected(1), nil
 }
 func (s *c11Stmt) Query(_ []driver.Value) (driver.Rows, error) {
-	if err := s.c.rec.step("query", "stmt", s.c.id); err != nil {
+	n, err := s.c.rec.stepN("query", "stmt", s.c.id)
+	if err != nil {
 		return nil, err
 	}
-	return &c11Rows{res: s.c.rec.nextResult()}, nil
+	return s.c.rec.rowsFor(n, s.c.id), nil
 }
 
 type c11Rows struct {
-	res c11Result
-	i   int
+	res    c11Result
+	i      int
+	rec    *c11Rec
+	conn   int
+	closed bool
 }
 
+// c11ErrFetch is what a failing driver.Rows.Next returns.
+var c11ErrFetch = errors.New("c11 fault next: connection reset while fetching row")
+
 func (r *c11Rows) Columns() []string { return r.res.Cols }
-func (r *c11Rows) Close() error      { return nil }
+func (r *c11Rows) Close() error {
+	if r.res.CloseErr != nil && !r.closed {
+		r.closed = true
+		r.rec.note("rows-close", r.conn, r.res.CloseErr)
+		return r.res.CloseErr
+	}
+	return nil
+}
 func (r *c11Rows) Next(dest []driver.Value) error {
+	if r.res.Fail && r.i == r.res.FailRow {
+		r.i = len(r.res.Rows) + 1 // the cursor is dead
+		r.rec.note("next", r.conn, c11ErrFetch)
+		return c11ErrFetch
+	}
 	if r.i >= len(r.res.Rows) {
 		return io.EOF
 	}
